@@ -56,9 +56,10 @@ Lemma src_track_other c t e s :
   (forall s' r, e <> ERead s' r) -> (forall s' ks, e <> EAck s' ks) ->
   acks (src (track c t e) s) = acks (src t s) /\ reads (src (track c t e) s) = reads (src t s).
 Proof.
-  intros H1 H2. destruct e as [s0 r|s0 ks| | |ws ok snap|s0 n ks|s0 n|s0|s0|s0|s0 fast]; simpl;
+  intros H1 H2. destruct e as [s0 r|s0 ks| | |ws ok snap|s0 n ks|s0 n|s0|s0|s0|s0 fast|s0 hn]; simpl;
     try (exfalso; eapply H1; reflexivity); try (exfalso; eapply H2; reflexivity); auto.
   - destruct (apply_writes_frame ok ws (src t) s) as (F1 & F2 & _). auto.
+  - unfold upd. destruct (s =? s0) eqn:E; [apply Nat.eqb_eq in E; subst|]; auto.
   - unfold upd. destruct (s =? s0) eqn:E; [apply Nat.eqb_eq in E; subst|]; auto.
   - unfold upd. destruct (s =? s0) eqn:E; [apply Nat.eqb_eq in E; subst|]; auto.
   - unfold upd. destruct (s =? s0) eqn:E; [apply Nat.eqb_eq in E; subst|]; auto.
@@ -70,7 +71,7 @@ Lemma acks_state c s l : acks (src (state_after c l) s) = eacks s l.
 Proof.
   induction l as [|e l IH] using rev_ind; [reflexivity|].
   rewrite state_after_snoc. unfold eacks in *. rewrite flat_map_app. simpl. rewrite app_nil_r.
-  destruct e as [s0 r|s0 ks| | |ws ok snap|s0 n ks|s0 n|s0|s0|s0|s0 fast];
+  destruct e as [s0 r|s0 ks| | |ws ok snap|s0 n ks|s0 n|s0|s0|s0|s0 fast|s0 hn];
     try (rewrite app_nil_r; rewrite <- IH; apply src_track_other; intros; discriminate).
   - rewrite app_nil_r, <- IH. simpl. unfold upd. destruct (s =? s0) eqn:E; [apply Nat.eqb_eq in E; subst|]; reflexivity.
   - simpl. unfold upd. rewrite (Nat.eqb_sym s0 s). destruct (s =? s0) eqn:E.
@@ -82,7 +83,7 @@ Lemma reads_state c s l : reads (src (state_after c l) s) = ereads s l.
 Proof.
   induction l as [|e l IH] using rev_ind; [reflexivity|].
   rewrite state_after_snoc. unfold ereads in *. rewrite flat_map_app. simpl. rewrite app_nil_r.
-  destruct e as [s0 r|s0 ks| | |ws ok snap|s0 n ks|s0 n|s0|s0|s0|s0 fast];
+  destruct e as [s0 r|s0 ks| | |ws ok snap|s0 n ks|s0 n|s0|s0|s0|s0 fast|s0 hn];
     try (rewrite app_nil_r; rewrite <- IH; apply src_track_other; intros; discriminate).
   - simpl. unfold upd. rewrite (Nat.eqb_sym s0 s). destruct (s =? s0) eqn:E.
     + apply Nat.eqb_eq in E; subst. simpl. rewrite IH. reflexivity.
@@ -104,7 +105,7 @@ Proof.
                      In (mkW s (okmax (src (track c t e) s)) p true) ws).
   { intros E. rewrite E. destruct IH as [IH|(l1 & ws & snap & l2 & p & -> & Hin)]; [left; exact IH|].
     right. exists l1, ws, snap, (l2 ++ [e]), p. rewrite <- app_assoc. simpl. auto. }
-  destruct e as [s0 r|s0 ks| | |ws ok snap|s0 n ks|s0 n|s0|s0|s0|s0 fast];
+  destruct e as [s0 r|s0 ks| | |ws ok snap|s0 n ks|s0 n|s0|s0|s0|s0 fast|s0 hn];
     try (apply Hkeep; simpl; unfold upd; destruct (s =? s0) eqn:E; [apply Nat.eqb_eq in E; subst|]; reflexivity);
     try (apply Hkeep; reflexivity).
   (* ECommit *)
@@ -229,7 +230,7 @@ Lemma track_deliv_frame c t e s :
   (forall n ks, e <> EPAck s n ks) -> (forall n, e <> ESendFail s n) ->
   lastp (src (track c t e) s) = lastp (src t s) /\ dn (src (track c t e) s) = dn (src t s).
 Proof.
-  intros H1 H2. destruct e as [s0 r|s0 ks| | |ws ok snap|s0 n ks|s0 n|s0|s0|s0|s0 fast]; simpl; auto;
+  intros H1 H2. destruct e as [s0 r|s0 ks| | |ws ok snap|s0 n ks|s0 n|s0|s0|s0|s0 fast|s0 hn]; simpl; auto;
     try (unfold upd; destruct (s =? s0) eqn:E; [apply Nat.eqb_eq in E; subst|]; auto; fail).
   - destruct (apply_writes_frame ok ws (src t) s) as (_ & _ & _ & _ & _ & F6 & F7 & _). auto.
   - unfold upd; destruct (s =? s0) eqn:E; [apply Nat.eqb_eq in E; subst; exfalso; eapply H1; reflexivity|auto].
@@ -275,7 +276,7 @@ Proof.
                0 < n /\ nth_error (eacks s l ++ match e with EAck s' ks0 => if s' =? s then [ks0] else [] | _ => [] end) (n - 1) = Some ks).
     { intros n ks Hin. destruct (I3 n ks Hin) as [Hp Hn]. split; [exact Hp|].
       rewrite nth_error_app1; [exact Hn|]. apply nth_error_Some. congruence. }
-    destruct e as [s0 r|s0 ks| | |ws ok snap|s0 n ks|s0 n|s0|s0|s0|s0 fast];
+    destruct e as [s0 r|s0 ks| | |ws ok snap|s0 n ks|s0 n|s0|s0|s0|s0 fast|s0 hn];
       try (match goal with |- context [track c t ?ev] =>
              destruct (track_deliv_frame c t ev s ltac:(intros; discriminate) ltac:(intros; discriminate)) as [-> ->] end;
            rewrite ?app_nil_r, ?Nat.add_0_r in *; fifo_fin I3 I4 Hgrow; fail).
@@ -327,14 +328,14 @@ Lemma track_store_frame c t e s :
   (forall ws ok snap, e <> ECommit ws ok snap) ->
   stag (src (track c t e) s) = stag (src t s) /\ spos (src (track c t e) s) = spos (src t s).
 Proof.
-  intros H. destruct e as [s0 r|s0 ks| | |ws ok snap|s0 n ks|s0 n|s0|s0|s0|s0 fast]; simpl; auto;
+  intros H. destruct e as [s0 r|s0 ks| | |ws ok snap|s0 n ks|s0 n|s0|s0|s0|s0 fast|s0 hn]; simpl; auto;
     try (unfold upd; destruct (s =? s0) eqn:E; [apply Nat.eqb_eq in E; subst|]; auto; fail).
   exfalso. eapply H. reflexivity.
 Qed.
 
 Lemma stag_mono_step c t e s : Inv c t -> acc_ok c t e = true -> stag (src t s) <= stag (src (track c t e) s).
 Proof.
-  intros HI Ha. destruct e as [s0 r|s0 ks| | |ws ok snap|s0 n ks|s0 n|s0|s0|s0|s0 fast];
+  intros HI Ha. destruct e as [s0 r|s0 ks| | |ws ok snap|s0 n ks|s0 n|s0|s0|s0|s0 fast|s0 hn];
     try (match goal with |- context [track c t ?ev] => destruct (track_store_frame c t ev s ltac:(intros; discriminate)) as [-> _] end; lia).
   simpl in Ha. apply andb_true_iff in Ha. destruct Ha as [Ha _]. apply andb_true_iff in Ha. destruct Ha as [Ha _].
   apply andb_true_iff in Ha. destruct Ha as [Ha Hall]. apply andb_true_iff in Ha. destruct Ha as [_ Hnd].
@@ -362,7 +363,7 @@ Proof.
   induction l as [|e l IH] using rev_ind; intros Ha; [simpl; lia|].
   specialize (IH (accepts_prefix _ _ _ Ha)). pose proof (accepts_at c l e [] Ha) as Hacc.
   rewrite state_after_snoc. set (t := state_after c l) in *.
-  destruct e as [s0 r|s0 ks| | |ws ok snap|s0 n ks|s0 n|s0|s0|s0|s0 fast]; simpl; auto;
+  destruct e as [s0 r|s0 ks| | |ws ok snap|s0 n ks|s0 n|s0|s0|s0|s0 fast|s0 hn]; simpl; auto;
     try (unfold upd; destruct (s =? s0) eqn:E; [apply Nat.eqb_eq in E; subst|]; auto; fail).
   - unfold upd; destruct (s =? s0) eqn:E; [apply Nat.eqb_eq in E; subst|]; auto. simpl.
     simpl in Hacc. apply andb_true_iff in Hacc. destruct Hacc as [_ Hacc]. apply Nat.ltb_lt in Hacc. lia.
@@ -574,7 +575,7 @@ Proof.
   intros Hs Hw.
   destruct (existsb (fun e => match e with ECommit ws true _ => negb (all_wok ws) | _ => false end) l) eqn:Hex.
   - apply existsb_exists in Hex. destruct Hex as (e & Hin & He).
-    destruct e as [| | | |ws [|] snap| | | | | |]; try discriminate. exists ws, snap. split; [exact Hin|].
+    destruct e as [| | | |ws [|] snap| | | | | | |]; try discriminate. exists ws, snap. split; [exact Hin|].
     apply negb_true_iff in He. exact He.
   - exfalso. unfold Mon_C02 in *.
     assert (Hgen : forall l' t, (forall s, okmax (src t s) = attmax (src t s)) ->
@@ -584,7 +585,7 @@ Proof.
       apply orb_false_iff in Hno. destruct Hno as [He Hno]. simpl runchk. f_equal.
       - destruct e; simpl; try reflexivity. rewrite (Ht s). reflexivity.
       - apply IH; [|exact Hno]. intros s.
-        destruct e as [s0 r|s0 ks| | |ws ok snap|s0 n ks|s0 n|s0|s0|s0|s0 fast]; simpl;
+        destruct e as [s0 r|s0 ks| | |ws ok snap|s0 n ks|s0 n|s0|s0|s0|s0 fast|s0 hn]; simpl;
           try (unfold upd; destruct (s =? s0) eqn:E; [apply Nat.eqb_eq in E; subst|]; simpl; apply Ht);
           try apply Ht.
         apply apply_writes_ok_att; [|exact Ht]. destruct ok; [right|left; reflexivity].
@@ -626,3 +627,23 @@ Example teardown_needs_quiet_start :
   forallb (fun e => match e with ECommit ws ok _ => ok && all_wok ws | ETxFail => false | ESendFail _ _ => false | _ => true end)
           (log_of y) = true.
 Proof. vm_compute. repeat split. repeat (try (left; reflexivity); right). Qed.
+
+(* a send parked in the plugin stream (ESendHeld) while a later ack is still in the debounce batch and
+   the source is torn down: the teardown is healthy, so both acks must have reached the plugin when the
+   stream is cancelled.  A delivery goroutine that exits as soon as it sees the queue closed, with the
+   final ack still queued, produces the first log; the code as it is produces the second. *)
+Definition held_cfg : cfg := mkCfg 1 [0] 2 true.
+Definition held_log (final_ack : bool) : list event :=
+  [ERead 0 1; EAck 0 [1]; ETxBegin; ECommit [mkW 0 1 1 true] true [(1, 1)]; ESendHeld 0 1;
+   ERead 0 2; EAck 0 [2]; ETdBegin 0; ETxBegin; ECommit [mkW 0 2 2 true] true [(2, 2)]; EPAck 0 1 [1]] ++
+  (if final_ack then [EPAck 0 2 [2]] else []) ++ [ETdCancel 0; ETdEnd 0 true].
+
+Example held_send_teardown_must_drain :
+  accepts held_cfg (held_log false) = false /\ Mon_C02 true held_cfg (held_log false) = false /\
+  accepts held_cfg (held_log true) = true /\ Mon_C02 true held_cfg (held_log true) = true /\
+  (* the model produces the good one *)
+  run_log (mkM held_cfg 100)
+    [ARead 0 1; AAck 0 [1]; AFlush; AWriteDone true [] true; ACallback 0; ACallback 0; AHold 0;
+     ARead 0 2; AAck 0 [2]; ATdBegin 0; AWriteDone true [] true; ACallback 0; ADeliver 0 true; ATdWaited 0;
+     ADeliver 0 true; ATdCancel 0; ATdDown 0 true] = held_log true.
+Proof. vm_compute. repeat split. Qed.
